@@ -10,8 +10,14 @@ extern "C" {
     fn mmap(addr: *mut u8, len: usize, prot: i32, flags: i32, fd: i32, off: i64) -> *mut u8;
 }
 
+#[cfg(not(miri))]
 pub const CTX_CAP: usize = 1 << 17;
+#[cfg(miri)]
+pub const CTX_CAP: usize = 1 << 13;
+#[cfg(not(miri))]
 pub const DISTINCT_CAP: usize = 1 << 21; // open addressing, u64 keys, 16 MiB
+#[cfg(miri)]
+pub const DISTINCT_CAP: usize = 1 << 8;
 pub const NSTATS: usize = 160;
 pub const SAMPLE_CAP: usize = 1 << 14;
 
@@ -38,6 +44,15 @@ pub struct Shared {
 
 static SHARED: AtomicPtr<Shared> = AtomicPtr::new(std::ptr::null_mut());
 
+#[cfg(miri)]
+pub fn init() {
+    // Miri has no mmap: a private, leaked allocation is enough for a single process
+    let layout = std::alloc::Layout::new::<Shared>();
+    let p = unsafe { std::alloc::alloc_zeroed(layout) };
+    SHARED.store(p as *mut Shared, Relaxed);
+}
+
+#[cfg(not(miri))]
 pub fn init() {
     let len = std::mem::size_of::<Shared>();
     // MAP_SHARED | MAP_ANONYMOUS | MAP_NORESERVE
@@ -70,7 +85,7 @@ stats! {
     op_new, op_clone, op_drop, op_store, op_store_adopt, op_take, op_take_elided, op_adopt, op_unadopt,
     op_unadopt_unmatched, op_selfsame, op_unselfsame, op_downgrade, op_upgrade, op_upgrade_some, op_upgrade_none,
     op_weakclone, op_weakdrop, op_storeweak, op_tryunwrap_ok, op_tryunwrap_err, op_makemut_unique, op_makemut_clone,
-    op_makemut_steal, op_getmut_some, op_getmut_none, op_intoraw, op_fromraw, op_incstrong, op_decstrong, op_dropvalue,
+    op_makemut_steal, op_slot_makemut, op_getmut_some, op_getmut_none, op_intoraw, op_fromraw, op_incstrong, op_decstrong, op_dropvalue,
     op_noise, op_noop,
     // fault kinds (fired)
     f_layout_runs, f_noise_alloc, f_dtor_panic, f_dtor_script, f_script_action, f_nested_collection, f_elided_unadopt,
